@@ -448,9 +448,14 @@ func concatStrings(lhs *ValueExpression, rhs *ValueExpression) *ValueExpression 
 		return lhs
 	}
 
-	// lhs is string, add rhs to prefix of first var
+	// lhs is string, add rhs to prefix of first var (or to the suffix if rhs has no variables)
 	if lhs.FString == nil && rhs.FString != nil {
-		rhs.FString.Vars[0].Prefix = lhs.String[1:len(lhs.String)-1] + rhs.FString.Vars[0].Prefix
+		prefix := lhs.String[1 : len(lhs.String)-1]
+		if len(rhs.FString.Vars) == 0 {
+			rhs.FString.Suffix = prefix + rhs.FString.Suffix
+			return rhs
+		}
+		rhs.FString.Vars[0].Prefix = prefix + rhs.FString.Vars[0].Prefix
 		return rhs
 	}
 
